@@ -241,7 +241,56 @@ def register(reg):
     contracts.EXTRA_ASSUMPTIONS['C15'] = [
         "A-FS: realpath/join/exists/isfile/content are uninterpreted functions of their arguments, fixed during one "
         "call (no TOCTOU claim); laws assumed: realpath is idempotent; a real path is non-empty and does not end with '/' unless it has length 1"]
-    return {'C15': {'read_latex_file': FunctionUnit(c), 'set_tex_input_directory': FunctionUnit(c_set), 'read_input_file': rif_unit}}
+
+    # ---- the per-call contracts above describe ONE call against the file system as it is during that call.  They carry the property
+    # over a history of calls (a link repointed, the directory changed between two \input's) only if nothing computed from the file
+    # system in one call is kept for the next: no module-level state in _inputlatexfile.py, no attribute of the converter written
+    # or mutated by read_input_file.  Frame obligations from the AST (same analysis as the C09 frames).
+    def lemma_stateless(it):
+        import ast as _ast, os as _os
+        from contracts import purity as _pur
+        ctx = it.ctx
+        root = it.program.root
+        rel = 'pylatexenc/latex2text/_inputlatexfile.py'
+        tree = _ast.parse(open(_os.path.join(root, rel), encoding='utf-8').read())
+        module_names = {t.id for st in tree.body if isinstance(st, (_ast.Assign, _ast.AnnAssign))
+                        for t in (st.targets if isinstance(st, _ast.Assign) else [st.target]) if isinstance(t, _ast.Name)}
+        fns = [f for f in _ast.walk(tree) if isinstance(f, (_ast.FunctionDef, _ast.Lambda))]
+        ctx.prove('stateless: read_latex_file is present', any(getattr(f, 'name', None) == 'read_latex_file' for f in fns), 'frame', src=rel)
+        bad = []
+        for f in fns:
+            if isinstance(f, _ast.FunctionDef):
+                bad += _pur._global_writes(f, module_names) + _pur._mutable_defaults(f)
+                # function attributes (read_latex_file.cache = ...) and memoising decorators are state as well
+                bad += [(d.lineno, _ast.unparse(d), 'decorator') for d in f.decorator_list]
+                for n in _ast.walk(f):
+                    if isinstance(n, (_ast.Assign, _ast.AugAssign)):
+                        for t in (n.targets if isinstance(n, _ast.Assign) else [n.target]):
+                            e = t
+                            while isinstance(e, (_ast.Attribute, _ast.Subscript)):
+                                e = e.value
+                            if e is not t and isinstance(e, _ast.Name) and e.id in {g.name for g in fns if isinstance(g, _ast.FunctionDef)}:
+                                bad.append((n.lineno, e.id, 'store into a function object'))
+        ctx.prove('stateless:_inputlatexfile.py keeps nothing from one call for the next (no module-level state written)', not bad, 'frame',
+                  src='%s: %s' % (rel, '; '.join('line %d: %s (%s)' % b for b in bad[:6])))
+        rel2 = 'pylatexenc/latex2text/__init__.py'
+        tree2 = _ast.parse(open(_os.path.join(root, rel2), encoding='utf-8').read())
+        cls = [c_ for c_ in _ast.walk(tree2) if isinstance(c_, _ast.ClassDef) and c_.name == 'LatexNodes2Text']
+        meth = [f for c_ in cls for f in c_.body if isinstance(f, _ast.FunctionDef) and f.name == 'read_input_file']
+        ctx.prove('stateless: LatexNodes2Text.read_input_file is present', len(meth) == 1, 'frame', src=rel2)
+        mod2 = {t.id for st in tree2.body if isinstance(st, _ast.Assign) for t in st.targets if isinstance(t, _ast.Name)}
+        bad2 = []
+        for f in meth:
+            bad2 += _pur._self_writes(f) + _pur._alias_writes(f) + _pur._global_writes(f, mod2) + _pur._mutable_defaults(f)
+            bad2 += [(d.lineno, _ast.unparse(d), 'decorator') for d in f.decorator_list]
+        ctx.prove('stateless:LatexNodes2Text.read_input_file writes nothing that outlives the call', not bad2, 'frame',
+                  src='%s: %s' % (rel2, '; '.join('line %d: %s (%s)' % b for b in bad2[:6])))
+    from pyvc.contracts import LemmaUnit
+    stateless = LemmaUnit('no-state-between-file-reads', lemma_stateless,
+                          functions=['pylatexenc.latex2text._inputlatexfile.read_latex_file', L2T + '.read_input_file'])
+    contracts.REPLAYERS['no-state-between-file-reads'] = replay
+    return {'C15': {'read_latex_file': FunctionUnit(c), 'set_tex_input_directory': FunctionUnit(c_set), 'read_input_file': rif_unit,
+                    'no-state-between-file-reads': stateless}}
 
 
 def replay(o, model):
@@ -304,5 +353,18 @@ with tempfile.TemporaryDirectory() as top:
         if read_latex_file(rootdir, True, rel) != "INSIDE":
             reproduced("with the filesystem root %r as input directory, %r (inside) was not read" % (rootdir, rel),
                        "inside-not-read")
+    # a history: the directory's name is a link that is repointed between two reads (nothing may be remembered from the first)
+    v1 = os.path.join(top, "v1"); os.mkdir(v1); v2 = os.path.join(top, "v2"); os.mkdir(v2)
+    open(os.path.join(v1, "secret.tex"), "w").write(MARK); open(os.path.join(v2, "ok.tex"), "w").write("OK2")
+    cur = os.path.join(top, "cur"); os.symlink(v1, cur)
+    l2t = LatexNodes2Text(); l2t.set_tex_input_directory(cur, strict_input=True)
+    first = (read_latex_file(cur, True, "secret"), l2t.read_input_file("secret"))
+    os.remove(cur); os.symlink(v2, cur)
+    for n in ("../v1/secret", "../v1/secret.tex", os.path.join(v1, "secret.tex")):
+        if MARK in read_latex_file(cur, True, n) or MARK in l2t.read_input_file(n) or MARK in l2t.latex_to_text(r"\input{%s}" % n):
+            reproduced("after the directory link %r was repointed from v1 to v2, strict reading of %r still returned a file of v1 "
+                       "(something is remembered from the earlier read)" % ("<top>/cur", n), "stale-directory")
+    if read_latex_file(cur, True, "ok") != "OK2" or l2t.read_input_file("ok.tex") != "OK2":
+        reproduced("after the directory link was repointed, a file inside the new target was refused", "stale-directory")
 not_reproduced()
 '''
